@@ -96,9 +96,10 @@ pub fn fuzz_ops(data: &[u8]) {
     let nt = NameTable::new(&gc, &[]);
     let cs = vol.cluster_size();
     let mut ops = Vec::new();
+    let mut mem: Vec<String> = Vec::new();
     while r.left() >= 8 && ops.len() < 60 {
         let raw = RawOp { kind: r.u16(), a: r.u16(), b: r.u16(), c: r.u8() as u16 * 257, d: r.u16(), n: r.u32(), x: r.u32() as i64 - (1 << 31) };
-        ops.extend(gen::decode_op(&gc, &nt, cs, &raw));
+        ops.extend(gen::decode_op(&gc, &nt, cs, &raw, &mut mem));
     }
     let case = Case { vol, ops };
     let mut cfg = RunCfg::new(&[Aspect::Outcome, Aspect::Tree, Aspect::File, Aspect::Fsck, Aspect::Panic, Aspect::Budget]);
